@@ -49,6 +49,9 @@ try:
         for i, dm in enumerate(neutral_demos):
             local = os.path.join(wt, '_demo%d.py' % i)
             open(local, 'w').write(re.sub(r'/tmp/wt\d*_C\d+', wt, open(dm).read()))
+            for hname in os.listdir(os.path.dirname(dm)):
+                if hname.endswith('.py') and hname != 'demo.py':
+                    open(os.path.join(wt, hname), 'w').write(re.sub(r'/tmp/wt\d*_C\d+', wt, open(os.path.join(os.path.dirname(dm), hname)).read()))
             r = sh('cd %s && timeout 300 /venv/bin/python _demo%d.py' % (wt, i), env=env)
             results.append({'demo': dm, 'exit': r.returncode})
         t0 = time.time()
@@ -75,6 +78,10 @@ try:
     # demos were written against /tmp/wt_Cxx: point them at the confirmation worktree
     demo_local = os.path.join(wt, '_demo.py')
     open(demo_local, 'w').write(re.sub(r'/tmp/wt\d*_C\d+', wt, demo_txt))
+    # helper modules the demonstration imports (a fake peer, say) sit next to it
+    helpers = [f for f in os.listdir(src) if f.endswith('.py') and f != 'demo.py']
+    for hname in helpers:
+        open(os.path.join(wt, hname), 'w').write(re.sub(r'/tmp/wt\d*_C\d+', wt, open(os.path.join(src, hname)).read()))
     sh('git -C %s apply %s' % (wt, patch))
     r1 = sh('cd %s && timeout 300 /venv/bin/python _demo.py' % wt, env=env)
     meta['demo_with_change'] = {'exit': r1.returncode, 'tail': (r1.stdout + r1.stderr)[-600:]}
@@ -111,6 +118,8 @@ try:
         os.makedirs(out, exist_ok=True)
         shutil.copy(patch, os.path.join(out, 'patch.diff'))
         shutil.copy(demo, os.path.join(out, 'demo.py'))
+        for hname in helpers:
+            shutil.copy(os.path.join(src, hname), os.path.join(out, hname))
         if os.path.exists(notes):
             shutil.copy(notes, os.path.join(out, 'notes.md'))
         json.dump(meta, open(os.path.join(out, 'meta.json'), 'w'), indent=1)
